@@ -4,7 +4,7 @@ S=$1; T=${2:-quick}; shift; shift
 D=/verif/seeded/$S; P=$(python3 -c "import json;print(json.load(open('$D/meta.json'))['property'])")
 [ -n "${PROP:-}" ] && P=$PROP
 cd /repo && git apply $D/patch.diff || exit 2
-cd /verif && VERIF_TIER=$T ./vf check $P "$@" > /tmp/seedrun-$S-$P.log 2>&1; rc=$?
+cd /verif && VF_NO_EVIDENCE=1 VERIF_TIER=$T ./vf check $P "$@" > /tmp/seedrun-$S-$P.log 2>&1; rc=$?
 git -C /repo checkout -- .
 grep -E "VIOLATION|violation in|OK property|INCONCLUSIVE|ENGINE-MISMATCH|BUILD-FAILURE" /tmp/seedrun-$S-$P.log | head -8
 echo "seed $S check $P rc=$rc"
